@@ -52,6 +52,7 @@ def programs(draw, tier):
         st.tuples(st.just("exit")),
         st.tuples(st.just("next-dead")),
         st.tuples(st.just("asend-dead")),
+        st.tuples(st.just("close-dead")),
         st.tuples(st.just("asend"), st.integers(0, 2)),
         st.tuples(st.just("reenter"), st.integers(0, 2)),
         # a scope over ANOTHER iterator (distinct, but equal to the first under ==) opened and left inside the block
@@ -231,6 +232,11 @@ def run_program(case, cancel_at=None):
                 elif name == "asend-dead":
                     if dead:
                         await take(dead[-1], live=False, via="asend")
+                elif name == "close-dead":
+                    # a late close of a handle whose scope is over (a tool that still held it cleans up): it stays dead
+                    if dead:
+                        await dead[-1].aclose()
+                        await take(dead[-1], live=False)
                 else:
                     target = stack[op[1] % len(stack)]
                     if name == "next":
